@@ -19,6 +19,7 @@ struct PeerStream {
     responded: bool,      // client role: peer sent final response HEADERS
     we_reset: bool,       // we sent RST_STREAM
     we_reset_code: u32,
+    recv_dropped: bool,   // the application dropped (or never took) the receive handle: h2 discards the data (F3)
     odd_head: bool,       // the peer's head was unusual (content-length, 204, malformed): not a stream for C09's DATA entries
     peer_reset: bool,     // the peer sent RST_STREAM
 }
@@ -48,7 +49,17 @@ impl<'a> G<'a> {
     fn op(&mut self, line: String) -> String {
         writeln!(self.out, "{}", line).unwrap();
         let ws: Vec<&str> = line.split(' ').filter(|w| !w.is_empty()).collect();
-        let ans = self.cn.handle(&ws).unwrap_or_else(|| "bad-op".into());
+        let cn = &mut self.cn;
+        let ans = match std::panic::catch_unwind(std::panic::AssertUnwindSafe(|| cn.handle(&ws))) {
+            Ok(a) => a.unwrap_or_else(|| "bad-op".into()),
+            Err(_) => {
+                // the real code panicked: leak the (possibly poisoned) connection, end this history
+                let old = std::mem::replace(&mut self.cn, ConnH::none());
+                std::mem::forget(old);
+                self.dead = true;
+                "panic".to_string()
+            }
+        };
         self.digest(&ans);
         ans
     }
@@ -333,6 +344,13 @@ impl<'a> G<'a> {
                 if let Some(k) = self.pick_slot() {
                     let w = *self.rng.pick(&["send", "resp", "body", "all", "fc"]);
                     self.op(format!("cn_drop {} {}", k, w));
+                    if ["resp", "body", "all", "responder"].contains(&w) {
+                        if let Some(sid) = self.slot_sid.get(k).copied() {
+                            if let Some(s) = self.streams.get_mut(&sid) {
+                                s.recv_dropped = true;
+                            }
+                        }
+                    }
                 }
             }
             52..=53 => {
@@ -577,6 +595,11 @@ impl<'a> G<'a> {
                         self.op(format!("cn_keepfc {}", k));
                     }
                     self.op(format!("cn_drop {} body", k));
+                    if let Some(sid) = self.slot_sid.get(k).copied() {
+                        if let Some(s) = self.streams.get_mut(&sid) {
+                            s.recv_dropped = true;
+                        }
+                    }
                 }
             }
             50..=56 => {
@@ -608,6 +631,13 @@ impl<'a> G<'a> {
                 if let Some(k) = self.pick_slot() {
                     let w = *self.rng.pick(&["send", "responder", "body", "all", "fc"]);
                     self.op(format!("cn_drop {} {}", k, w));
+                    if ["resp", "body", "all", "responder"].contains(&w) {
+                        if let Some(sid) = self.slot_sid.get(k).copied() {
+                            if let Some(s) = self.streams.get_mut(&sid) {
+                                s.recv_dropped = true;
+                            }
+                        }
+                    }
                 }
             }
             76..=79 => {
@@ -747,12 +777,42 @@ impl<'a> G<'a> {
             cands.push(("conn", 0, wire(8, 0, 0, &0x7fff_ffffu32.to_be_bytes())));                // connection window overflow
         }
         if let Some(sid) = open_both.first() {
+            // more than the connection's receive window allows: connection error FLOW_CONTROL_ERROR
+            let cc = self.conn_credit;
+            if cc >= 0 && cc + 1 <= 16384 && self.streams[sid].credit >= cc + 1 {
+                cands.push(("conn", 0, wire(0, 0, *sid, &vec![b'o'; (cc + 1) as usize])));
+            }
+        }
+        if let Some(sid) = open_both.first() {
             cands.push(("stream", *sid, wire(8, 0, *sid, &0u32.to_be_bytes())));                  // WINDOW_UPDATE(0) on a stream
             if self.send_window(*sid) >= 1 {
                 cands.push(("stream", *sid, wire(8, 0, *sid, &0x7fff_ffffu32.to_be_bytes())));    // stream window overflow
             }
             if self.streams[sid].credit >= 5 && self.conn_credit >= 5 {
                 cands.push(("tolerate", *sid, wire(0, 8, *sid, &[3, b'x', 0, 0, 0])));            // padded DATA
+            }
+            // one octet more than the stream's receive window allows (the connection window has room): the endpoint
+            // MUST answer with a stream or connection error of type FLOW_CONTROL_ERROR (RFC 9113 section 6.9.1)
+            let c = self.streams[sid].credit;
+            if std::env::var("H2V_GEN_DEBUG").is_ok() {
+                eprintln!("c09 cand sid={} dropped={} slot_sid={:?}", sid, self.streams[sid].recv_dropped, self.slot_sid);
+            }
+            if c >= 0 && c + 1 <= 16384 && self.conn_credit >= c + 1 && !self.streams[sid].recv_dropped {
+                cands.push(("streamorconn", *sid, wire(0, 0, *sid, &vec![b'o'; (c + 1) as usize])));
+                // a legal padded frame first (its padding is released at once, before any WINDOW_UPDATE is due), then
+                // one octet more than what is left of the window
+                if c >= 10 {
+                    let mut b = wire(0, 8, *sid, &[3, b'x', 0, 0, 0]);
+                    b.extend(wire(0, 0, *sid, &vec![b'o'; (c - 5 + 1) as usize]));
+                    cands.push(("streamorconn", *sid, b));
+                }
+                // the same with part of it as padding
+                if c >= 3 {
+                    let mut pl = vec![2u8];
+                    pl.extend(vec![b'o'; (c - 2) as usize]);
+                    pl.extend([0u8, 0]);
+                    cands.push(("streamorconn", *sid, wire(0, 8, *sid, &pl)));
+                }
             }
         }
         if let Some(sid) = peer_done.first() {
